@@ -117,7 +117,7 @@ def default_dirs_agree(ctx: Ctx, v, rule: str) -> int:
 def decode_set_store_local(ctx: Ctx, v, rule: str = "C16.R3") -> None:
     rep = ctx.report
     prog = ctx.prog
-    f = prog.funcs.get("dds._api.set_store")
+    f = prog.func("dds._api.set_store")
     if f is None:
         raise AnchorError("dds._api.set_store not found")
 
